@@ -542,7 +542,12 @@ func fieldOptsOverride(opts *options, fieldName string, idx int) (*options, Erro
 		// Only return a new `options` when arriving at new nested child. This
 		// combined with optimizations in `includeWildcard` will ensure that only
 		// a new opts will be created and returned when absolutely required.
-		if child != nil && opts.fieldHandlingTree != child {
+		//
+		// A named key without an entry leaves the configured field paths:
+		// nothing below it can match anymore, so the tree is dropped. Array
+		// lookups ("*" and indices) keep the current level.
+		leaves := child == nil && idx < 0 && fieldName != "*"
+		if (child != nil || leaves) && opts.fieldHandlingTree != child {
 			newOpts := *opts
 			newOpts.fieldHandlingTree = child
 			opts = &newOpts
